@@ -12,7 +12,7 @@ FnumGrid == {0, 1, 127, 128, 2047, 2048, 65536, 2147483646, P32, P32 + 7, Huge} 
 StreamBase == [call |-> "stream", ch |-> 2, bps |-> 16, rate |-> 44100, bs |-> 64, excess |-> FALSE, where |-> 0, bdel |-> 0]
 Singles(b, f, S) == { [b EXCEPT ![f] = v] : v \in S }
 \* the out-of-range sample at every position class
-WithExcess(b) == { [b EXCEPT !.excess = TRUE, !.where = w] : w \in 1..6 }
+WithExcess(b) == { [b EXCEPT !.excess = TRUE, !.where = w] : w \in 1..7 }
 StreamVecs ==
   LET one == Singles(StreamBase, "ch", ChGrid) \cup Singles(StreamBase, "bps", BpsGrid) \cup
              Singles(StreamBase, "rate", RateGrid) \cup Singles(StreamBase, "bs", BsGrid) \cup
